@@ -176,6 +176,13 @@ PROPS = {
         'explanation': 'Theorems over ALL event histories: (1) C15_no_orphan - every fragment that still owes a reply is held by an OPEN backend connection (awaiting a reply or waiting to be written), so a reply, the loss of the connection or the timeout resolves it (NInv, inductive over events, uses the decoder fact that every fragment of a decoded request has a routed per-slot request); (2) C15_close_completes - losing a connection completes in the same step every request with a fragment on it; (3) redirects to unknown / unconnectable nodes complete the request with an error; (4) completed requests are flushed (C09); (5) the pool never hands out a dead connection. Two genuine defects repaired (closeConn on a backend connection only logged: clients waited forever; OnMoved dropped the request on an unknown node). Histories close backends before the write, after the write and between the replies of split requests.',
         'assumptions': ['as C01', 'removal of a node from the topology (ticker closing its pool) is covered by C14 for the pool set; in the event-loop model a removed node is a closed pool (pp_closed) and its connections are closed by EServerClose events', 'liveness is proved as "no orphan + each resolving event completes"; that one of the resolving events eventually happens (the kernel reports the close, the timer fires) is runtime behaviour'],
     },
+    'C19': {
+        'props': 'Props/C19.v',
+        'suites': [{'name': 'buf', 'oracles': {'buf': 'o_buf'}, 'trivial_tags': [], 'vm_sample': 8}],
+        'rule': 'operation sequences of 5-45 operations on ring.Buffer (initial sizes 0..5000), elastic.RingBuffer (pooled ring) and elastic.Buffer (static threshold 1..8192) through their exported APIs: Write, Writev, WriteByte, Peek(n) incl. n<=0, Discard, Read, ReadByte, Reset; sizes are chosen adaptively from the live state (exact fill, one off, distance to the static/dynamic threshold, 0, small/medium/large up to 9000 bytes) so that wrap-around, growth below and above the 4 KiB grow threshold and ring-to-list spill are hit; data bytes are a running counter so any reordering or corruption is visible. distinct = distinct (kind, parameter, operation list); non-trivial = all (every sequence has writes and drains)',
+        'explanation': 'placeholder',
+        'assumptions': ['fewer than 2^31 bytes are buffered (Go int / math.MaxInt32 substitution in Peek)'],
+    },
     'C13': {
         'props': 'Props/C13.v',
         'suites': [{'name': 'loop', 'oracles': {'loop': 'o_loop'}, 'trivial_tags': ['plain'], 'vm_sample': 12, 'sigs': ['ask-redirect-without-asking', 'redirect-error-leaked-to-client', 'event-loop-stopped']}],
@@ -214,6 +221,11 @@ MANIFEST_TEXT = {
         'text': 'Coq theorems over ALL event histories: no fragment that owes a reply is held by a closed connection (inductive invariant), a connection loss completes every affected request in the same step, redirects to unknown nodes complete with an error, pool never returns a dead connection. Histories with backend closes at every point through the real loop.',
         'note': 'Trusted: Coq kernel, extraction, Go harness + stepper hooks (core/verif_loop.go), the transcription in Model/Proxy.v (validated on every run against the production loop). Eventual occurrence of close/timer events is runtime behaviour.',
         'technique': 'Coq proof (inductive invariant + step theorems) + differential correspondence through the real event loop',
+    },
+    'C19': {
+        'text': 'placeholder',
+        'note': 'placeholder',
+        'technique': 'Coq proof (refinement to a FIFO byte queue) + differential correspondence on the exported buffer APIs',
     },
     'C13': {
         'text': 'Coq theorems on the redirect step (re-queue at tail, nothing reaches the client) + C01 invariant; ASK part refuted by a computed witness and recorded as a known finding. MOVED/ASK/unknown-node histories through the real loop.',
